@@ -752,8 +752,8 @@ func (sys *sharedSystem) runOp(ctx context.Context, s *sched.Sched, tid int, op 
 			l, err := sys.cal.MultiGetCalendar(ctx, c, &caldav.CalendarMultiGet{Paths: []string{c + "o.ics"}})
 			return calObjs(l) + " " + errStr(err)
 		case "bigmultiget":
-			// a request body of several KiB (250 hrefs): buffers are sized, pooled or recycled by size
-			l, err := sys.cal.MultiGetCalendar(ctx, c, &caldav.CalendarMultiGet{Paths: repeatPath(c+"o.ics", 250)})
+			// a request body of more than 4 KiB (150 hrefs): buffers are sized, pooled or recycled by size
+			l, err := sys.cal.MultiGetCalendar(ctx, c, &caldav.CalendarMultiGet{Paths: repeatPath(c+"o.ics", 150)})
 			return fmt.Sprintf("%d objects, first %s %s", len(l), calObjs(l[:min1(len(l))]), errStr(err))
 		case "query":
 			l, err := sys.cal.QueryCalendar(ctx, c, &caldav.CalendarQuery{CompFilter: caldav.CompFilter{Name: "VCALENDAR"}})
@@ -785,7 +785,7 @@ func (sys *sharedSystem) runOp(ctx context.Context, s *sched.Sched, tid int, op 
 			l, err := sys.card.MultiGetAddressBook(ctx, c, &carddav.AddressBookMultiGet{Paths: []string{c + "o.vcf"}})
 			return cardObjs(l) + " " + errStr(err)
 		case "bigmultiget":
-			l, err := sys.card.MultiGetAddressBook(ctx, c, &carddav.AddressBookMultiGet{Paths: repeatPath(c+"o.vcf", 250)})
+			l, err := sys.card.MultiGetAddressBook(ctx, c, &carddav.AddressBookMultiGet{Paths: repeatPath(c+"o.vcf", 150)})
 			return fmt.Sprintf("%d objects, first %s %s", len(l), cardObjs(l[:min1(len(l))]), errStr(err))
 		case "query":
 			l, err := sys.card.QueryAddressBook(ctx, c, &carddav.AddressBookQuery{PropFilters: []carddav.PropFilter{{Name: "FN"}}})
@@ -1209,6 +1209,11 @@ func TestC18(t *testing.T) {
 		ref := soloReference(h)
 		firstK := 0
 		nExec := 0
+		// harnesses whose every execution moves hundreds of resources get a smaller execution budget
+		maxExec := maxExec
+		if strings.Contains(h.String(), "bigmultiget") {
+			maxExec /= 8
+		}
 		explore := func(bound int) sched.Result {
 			return sched.Explore(bound, maxExec, func(prefix []int) (*sched.Sched, string) {
 				s, o := runConc(t, h, prefix)
